@@ -5,14 +5,17 @@ Property theorems only (model: Model/Walk.lean, specification: Spec/Walk.lean).
 matches paths strictly below d).  All statements hold for every forest, every fault plan and every
 combination of the scan options, within the stated configuration class.
 
-CONFIGURATION CLASSES (they are classes of configurations, not narrowing hypotheses on the input):
+NAMING AND CONFIGURATION CLASSES.  A theorem that holds only inside a class of configurations carries the class in its NAME
+(`_benign`, `_fatalcfg`, `_limitcfg`, `_cancelcfg`): that is a restriction of the property's quantifier over configurations,
+not a relabelling; `_partial` marks a hypothesis that narrows the quantifier over inputs (DistinctNames, one root, `paths = []`,
+NoGiFaults, NoReadFaults).  Names without suffix hold for EVERY configuration (at most `NoExtractorPanic` / the matcher's domain law).
   * `Benign c` (no inode limit, no cancellation, `ErrorOnFSErrors` off, extractors do not panic): the EXACT
-    theorems `C01_calls`, `C01_inv_spec`, `C01_once_run`, `C01_subdir`, `C01_requested_*` — the attempts are the
+    theorems `C01_calls_benign`, `C01_inv_spec_benign`, `C01_once_run_partial`, `C01_subdir_partial`, `C01_requested_*` — the attempts are the
     specification's, as a list.
   * EVERY configuration (inode limit, size limit, cancellation before / inside any `Extract`, fatal errors,
     panicking extractors, and all their combinations): the invariant-style theorems `C01_only_required_run`,
     `C01_calls_are_files`, `C01_limit_shared_run`, `C01_limit_shared_step`, `C01_inv`.
-  * The other exact classes are in C09 (`FatalCfg`: fatal errors; `C09_fatal_clean`: fatal errors and no
+  * The other exact classes are in C09 (`FatalCfg`: fatal errors; `C09_fatal_clean_fatalcfg`: fatal errors and no
     traversal fault = the benign scan; `C09_eofs_only_by_failing`: any configuration) and C10 (`LimitCfg`,
     `CancelCfg`, and `run_trace` for every non-fatal, non-panicking configuration).  Combinations limit+fatal,
     cancellation+fatal and any configuration with a panicking extractor have ONLY the invariant-style theorems
@@ -26,26 +29,27 @@ import Scalibr.Model.Gitignore
 import Scalibr.Proofs.WalkSubdir
 import Scalibr.Proofs.WalkEngineInv
 import Scalibr.Proofs.WalkOnce
+import Scalibr.Proofs.WalkSubdirHyp
 namespace Scalibr.Walk
 
 /-- The extraction attempts of a scan are exactly the ones the specification lists — as a list: in
 enumeration order, each with its multiplicity — and the scan succeeds. `Extract` itself runs for the
 attempts whose file can be opened (`opened`). -/
-theorem C01_calls (c : Cfg) (hb : Benign c) (roots : List (Node × Faults)) (ho : GiOK c) :
+theorem C01_calls_benign (c : Cfg) (hb : Benign c) (roots : List (Node × Faults)) (ho : GiOK c) :
     (run c roots).err = .none ∧ (run c roots).calls = mustExtract c roots :=
   run_spec c hb roots ho
 
 /-- "Exactly once" (specification; narrowing hypothesis: `DistinctNames`, i.e. no directory lists a name twice):
 no (extractor, file) PAIR is owed twice within one walk — stated on the pairs `(cl.ext, cl.path)`, not on the
 attempt records (two equally named siblings of different sizes would give distinct records for the same pair). -/
-theorem C01_once (c : Cfg) (f : Faults) (above : List GiEntry) (p : Path) (n : Node) (h : DistinctNames n) :
+theorem C01_once_partial (c : Cfg) (f : Faults) (above : List GiEntry) (p : Path) (n : Node) (h : DistinctNames n) :
     ((mustFrom c f above p n).map fun cl => (cl.ext, cl.path)).Nodup :=
   mustFrom_keys_nodup c f above p n h
 
 /-- … and for the engine (class `Benign`; narrowing: one root, whole-tree scan, `DistinctNames`): no
 (extractor, file) pair is ATTEMPTED twice by the scan.  (With several roots, or a path requested twice, the
-same relative path is legitimately extracted once per root / request: see `C08_roots`.) -/
-theorem C01_once_run (c : Cfg) (hb : Benign c) (ho : GiOK c) (hp : c.paths = []) (root : Node) (f : Faults)
+same relative path is legitimately extracted once per root / request: see `C08_roots_benign`.) -/
+theorem C01_once_run_partial (c : Cfg) (hb : Benign c) (ho : GiOK c) (hp : c.paths = []) (root : Node) (f : Faults)
     (h : DistinctNames root) : ((run c [(root, f)]).calls.map fun cl => (cl.ext, cl.path)).Nodup :=
   run_keys_nodup c hb ho hp root f h
 
@@ -61,7 +65,9 @@ theorem C01_allFiles_complete (root : Node) (q : Path) (k : Kind) (sz : Nat) (h 
     ∃ r ∈ allFiles [] [] root, r.path = q ∧ r.kind = k ∧ r.size = sz :=
   allFiles_complete root q k sz h
 
-/-- "and on no other file": every owed attempt is for a regular file (or a symlink when symlink reading
+/-- DEFINITIONAL (an unfolding of the specification function `mustOne`, kept as a reading aid — not in the audited list;
+the statement about the ENGINE is `C01_only_required_run` / `C01_calls_are_files`).
+"and on no other file": every owed attempt is for a regular file (or a symlink when symlink reading
 is on) that the extractor requires, that no configured rule excludes, and that is within the size limit. -/
 theorem C01_only_required (c : Cfg) (f : Faults) (above : List GiEntry) (r : FileRec) (cl : Call)
     (h : cl ∈ mustOne c f above r) :
@@ -75,7 +81,8 @@ theorem C01_only_required (c : Cfg) (f : Faults) (above : List GiEntry) (r : Fil
     exact ⟨rfl, hreq, hc.1, hc.2⟩
   · simp at h
 
-/-- The size limit is shared: a file above the limit reaches NO extractor, not just the first one. -/
+/-- DEFINITIONAL (an unfolding of `mustOne` / `sizeOk`; the statements about the ENGINE are `C01_limit_shared_run` and
+`C01_limit_shared_step`).  The size limit is shared: a file above the limit reaches NO extractor, not just the first one. -/
 theorem C01_limit_shared (c : Cfg) (f : Faults) (above : List GiEntry) (r : FileRec)
     (hm : c.maxFileSize > 0) (hs : r.size > c.maxFileSize) : mustOne c f above r = [] := by
   unfold mustOne sizeOk; simp [hm, hs]
@@ -122,7 +129,7 @@ theorem C01_inv (c : Cfg) (hx : NoExtractorPanic c) (roots : List (Node × Fault
   exact runRoots_pkgs c hx roots _ [] [] (by simp [pkgsOfCalls]) hok
 
 /-- … and in a benign scan that inventory is determined by the specification alone. -/
-theorem C01_inv_spec (c : Cfg) (hb : Benign c) (roots : List (Node × Faults)) (ho : GiOK c) :
+theorem C01_inv_spec_benign (c : Cfg) (hb : Benign c) (roots : List (Node × Faults)) (ho : GiOK c) :
     (run c roots).pkgs = pkgsOfCalls c (mustExtract c roots) :=
   (run_results c hb roots ho).1
 
@@ -130,7 +137,7 @@ theorem C01_inv_spec (c : Cfg) (hb : Benign c) (roots : List (Node × Faults)) (
 whole-tree configuration without the sub-directory cut-off, if the whole-tree scan reaches directory `d`
 (every directory above it lets the walk through: `dirPasses` along the chain leading to `d`), then
 requesting `d` explicitly owes exactly the whole-tree scan's attempts that lie under `d`, in order. -/
-theorem C01_subdir_spec (c : Cfg) (hp : c.paths = []) (hisd : c.ignoreSubDirs = false) (f : Faults)
+theorem C01_subdir_spec_partial (c : Cfg) (hp : c.paths = []) (hisd : c.ignoreSubDirs = false) (f : Faults)
     (root : Node) (hdn : DistinctNames root) (d : Path) (gi : Option PatSet) (es : List (String × Node))
     (chain : List DirInfo) (hch : chainOf [] root d = some (chain, .dir gi es))
     (hreach : ∀ i, i < chain.length → dirPasses c f [] chain i = true)
@@ -140,7 +147,7 @@ theorem C01_subdir_spec (c : Cfg) (hp : c.paths = []) (hisd : c.ignoreSubDirs = 
 
 /-- … and for the engine: the scan that requests `d` makes exactly the attempts of the whole-tree scan
 that lie under `d`. -/
-theorem C01_subdir (c : Cfg) (hb : Benign c) (ho : GiOK c) (hp : c.paths = []) (hisd : c.ignoreSubDirs = false)
+theorem C01_subdir_partial (c : Cfg) (hb : Benign c) (ho : GiOK c) (hp : c.paths = []) (hisd : c.ignoreSubDirs = false)
     (f : Faults) (root : Node) (hdn : DistinctNames root) (d : Path) (gi : Option PatSet) (es : List (String × Node))
     (chain : List DirInfo) (hch : chainOf [] root d = some (chain, .dir gi es))
     (hreach : ∀ i, i < chain.length → dirPasses c f [] chain i = true)
@@ -149,10 +156,39 @@ theorem C01_subdir (c : Cfg) (hb : Benign c) (ho : GiOK c) (hp : c.paths = []) (
   have hb' : Benign { c with paths := [d] } := hb
   have ho' : GiOK { c with paths := [d] } := ho
   rw [(run_spec _ hb' [(root, f)] ho').2, (run_spec c hb [(root, f)] ho).2]
-  have := C01_subdir_spec c hp hisd f root hdn d gi es chain hch hreach hs0 hsd
+  have := C01_subdir_spec_partial c hp hisd f root hdn d gi es chain hch hreach hs0 hsd
   simp only [mustExtract, List.flatMap_cons, List.flatMap_nil, List.append_nil]
   rw [← this]
   simp [mustRoot]
+
+/-- The same from the DECIDABLE form of the hypotheses (`subdirHyp`, Proofs/WalkSubdirHyp.lean: `paths = []`, no
+sub-directory cut-off, distinct sibling names, `d` is a directory the whole-tree walk reaches, both start points can
+be stat'ed) — this is the form the driver evaluates (`subdirhyp=`) so that the paired-scan oracle of checks/c01.py
+judges the IMPLEMENTATION exactly where the theorem applies. -/
+theorem C01_subdir_decidable_partial (c : Cfg) (hb : Benign c) (ho : GiOK c) (f : Faults) (root : Node) (d : Path)
+    (h : subdirHyp c f root d = true) :
+    (run { c with paths := [d] } [(root, f)]).calls = (run c [(root, f)]).calls.filter (fun cl => under d cl.path) := by
+  have hb' : Benign { c with paths := [d] } := hb
+  have ho' : GiOK { c with paths := [d] } := ho
+  have hp : c.paths = [] := by
+    unfold subdirHyp at h
+    simp only [Bool.and_eq_true, List.isEmpty_iff] at h
+    exact h.1.1.1.1.1
+  rw [(run_spec _ hb' [(root, f)] ho').2, (run_spec c hb [(root, f)] ho).2]
+  have := mustRequested_subdir_of_hyp c f root d h
+  simp only [mustExtract, List.flatMap_cons, List.flatMap_nil, List.append_nil]
+  rw [← this]
+  simp [mustRoot]
+
+/-- The gitignore context of a REQUESTED directory (`parentGis`, which `mustRequested` takes from the model's
+`ParseParentGitignores`) is, declaratively, the `giEntryOf`s of the chain of directories leading from the root to it —
+the same patterns the whole-tree enumeration puts above the files below that directory. -/
+theorem C01_parentGis_is_chain (f : Faults) (root : Node) (d : Path) (chain : List DirInfo) (m : Node)
+    (h : chainOf [] root d = some (chain, m)) : (parentGis f root d).1 = chain.map (giEntryOf f) :=
+  parentGis_chain f root d chain m h
+
+/-- `DistinctNames` is decidable: `distinctB` (printed by the driver as `distinct=`) -/
+theorem C01_distinct_decidable (n : Node) : distinctB n = true ↔ DistinctNames n := distinctB_iff n
 
 /-- The concrete go-git matcher of the generated pattern sub-language satisfies the domain rule the
 theorems rely on. -/
@@ -178,25 +214,25 @@ def exTree : Node :=
              ("skipme", .dir none [("y", .file .reg 1)]), ("big", .file .reg 11)]
 example : Benign exCfg := ⟨rfl, rfl, rfl, rfl, fun _ _ => rfl⟩
 example : DistinctNames exTree := by simp [exTree, DistinctNames, DistinctNamesL]
-theorem exGiOK : GiOK exCfg := matcherMatch_domain
+example : GiOK exCfg := matcherMatch_domain
 example : (mustExtract exCfg [(exTree, {})]).map (fun cl => (cl.ext, cl.path)) = [(0, ["a", "x"]), (1, ["a", "x"])] := by decide
 example : ((chainOf [] exTree ["a"]).map fun x => x.1.map (·.path)) = some [[]] := by decide
 example : dirPasses exCfg {} [] [⟨[], none, 0⟩] 0 = true := by decide
 example : (run exCfg [(exTree, {})]).calls = mustExtract exCfg [(exTree, {})] :=
-  (C01_calls exCfg ⟨rfl, rfl, rfl, rfl, fun _ _ => rfl⟩ _ exGiOK).2
+  (C01_calls_benign exCfg ⟨rfl, rfl, rfl, rfl, fun _ _ => rfl⟩ _ matcherMatch_domain).2
 
-/-- `C01_subdir` at work on the example (its hypotheses are satisfiable on a tree with a nested `.gitignore`, a
+/-- `C01_subdir_partial` at work on the example (its hypotheses are satisfiable on a tree with a nested `.gitignore`, a
 skip glob and a size limit): requesting directory `a` makes exactly the whole-tree scan's attempts under `a`. -/
 example : (run { exCfg with paths := [["a"]] } [(exTree, {})]).calls
     = (run exCfg [(exTree, {})]).calls.filter (fun cl => under ["a"] cl.path) :=
-  C01_subdir exCfg ⟨rfl, rfl, rfl, rfl, fun _ _ => rfl⟩ exGiOK rfl rfl {} exTree
+  C01_subdir_partial exCfg ⟨rfl, rfl, rfl, rfl, fun _ _ => rfl⟩ matcherMatch_domain rfl rfl {} exTree
     (by simp [exTree, DistinctNames, DistinctNamesL]) ["a"] _ _ [⟨[], none, 0⟩] rfl
     (by intro i hi; have : i = 0 := by simpa using hi
         subst this; decide) rfl rfl
 
 /-! ### How an explicitly requested path is read (the interpretation of "reaches it")
 
-`mustRequested` — and, by `C01_calls`, the engine — treats a REQUESTED path as reached by the request itself:
+`mustRequested` — and, by `C01_calls_benign`, the engine — treats a REQUESTED path as reached by the request itself:
   * a requested FILE is handed to the extractors that require it, whatever the skip list, regex, glob or any
     `.gitignore` says about it or about the directories above it (only kind, size limit and `FileRequired` apply;
     `fs.Stat` follows a requested symlink);
@@ -220,7 +256,7 @@ theorem C01_requested_file_bypasses_skip_rules (c c' : Cfg) (f : Faults) (root :
     Bool.false_and, Bool.not_false, Bool.and_true, h1, h2, h3, h4]
 
 /-- … for the engine: the benign scans requesting that file make the same attempts under both configurations. -/
-theorem C01_requested_file_bypasses_skip_rules_run (c c' : Cfg) (hb : Benign c) (hb' : Benign c') (ho : GiOK c) (ho' : GiOK c')
+theorem C01_requested_file_bypasses_skip_rules_run_benign (c c' : Cfg) (hb : Benign c) (hb' : Benign c') (ho : GiOK c) (ho' : GiOK c')
     (f : Faults) (root : Node) (p : Path) (k : Kind) (sz : Nat) (hl : lookup root p = some (.file k sz))
     (hp : c.paths = [p]) (hp' : c'.paths = [p])
     (h1 : c'.nExt = c.nExt) (h2 : c'.required = c.required) (h3 : c'.maxFileSize = c.maxFileSize)
@@ -244,5 +280,8 @@ example : (mustRequested { exCfg with paths := [["skipme", "sub"]] } {} exTreeSu
     = [(0, ["skipme", "sub", "z"]), (1, ["skipme", "sub", "z"])] := by decide
 /-- … while a requested directory that is ITSELF excluded is not entered. -/
 example : mustRequested { exCfg with paths := [["skipme"]] } {} exTreeSub ["skipme"] = [] := by decide
+
+example : subdirHyp exCfg {} exTree ["a"] = true ∧ subdirHyp exCfg {} exTree ["skipme"] = true ∧
+    subdirHyp exCfg {} exTreeSub ["skipme", "sub"] = false ∧ distinctB exTree = true := by decide
 
 end Scalibr.Walk
